@@ -120,11 +120,19 @@ def check(ctx: Ctx, rep: Report):
         has_close_in_finally = any(isinstance(x, ast.Call) and call_chain(x) == ("self", "_close_transport") for t in fin for b in t.finalbody for x in ast.walk(b))
         is_dgram = any(isinstance(b, str) and b == "asyncio.DatagramProtocol" for b in prog.mro(ci))
         if is_dgram:
-            ok = False
-            for t in fin:
-                for b in t.finalbody:
-                    if isinstance(b, ast.If) and norm(b.test) == "not self.keep_alive" and any(isinstance(x, ast.Call) and call_chain(x) == ("self", "_close_transport") for x in ast.walk(b)):
-                        ok = True
+            # path rule: after the finally block is entered, the socket is closed unless keep_alive was tested true
+            ok, nfin = True, 0
+            for p in protocol_paths(ctx, sr):
+                fs = [i for i, ev in enumerate(p.events) if ev.kind == "finally"]
+                if not fs:
+                    continue
+                nfin += 1
+                tail = p.events[fs[-1]:]
+                closed = any(ev.kind == "call" and "close_transport" in tags(ev) for ev in tail)
+                kept = any(ev.kind == "test" and chain(ev.node) == ("self", "keep_alive") and ev.data is True for ev in tail)
+                if not closed and not kept:
+                    ok = False
+            ok = ok and nfin > 0
             rep.check(ok, "C10.R3", "udp-finally:%s" % ci.name, sr.loc(), "UDP send_request closes the socket in its finally when keep_alive is off",
                       bad="%s.send_request no longer closes the socket in its finally when keep_alive is off" % ci.name)
     # every request goes through execute (who-may-call)
